@@ -28,6 +28,51 @@ fn fp_of<T>(v: &T, p: &P, fp: fn(&T, &P, &mut Fingerprint)) -> Fingerprint {
     f
 }
 
+/// Run an out-of-contract probe in a forked child process: a damaged file may make a
+/// deserialiser panic, allocate without bound (which aborts the process, it does not unwind)
+/// or spin; none of that may take the checking process down with it.  The child has only the
+/// calling thread, a 10 s alarm and no stderr.
+fn in_child(f: impl FnOnce() -> bool) -> &'static str {
+    unsafe {
+        let pid = libc::fork();
+        if pid < 0 {
+            return "not_run";
+        }
+        if pid == 0 {
+            libc::alarm(10);
+            let devnull = libc::open(b"/dev/null\0".as_ptr() as *const libc::c_char, libc::O_WRONLY);
+            if devnull >= 0 {
+                libc::dup2(devnull, 2);
+            }
+            let r = catch_unwind(AssertUnwindSafe(f));
+            libc::_exit(match r {
+                Ok(true) => 0,
+                Ok(false) => 1,
+                Err(_) => 2,
+            });
+        }
+        let mut st: libc::c_int = 0;
+        loop {
+            let r = libc::waitpid(pid, &mut st, 0);
+            if r == pid {
+                break;
+            }
+            if r < 0 && *libc::__errno_location() != libc::EINTR {
+                return "not_run";
+            }
+        }
+        if libc::WIFEXITED(st) {
+            match libc::WEXITSTATUS(st) {
+                0 => "accepted",
+                1 => "rejected",
+                _ => "panicked",
+            }
+        } else {
+            "aborted_or_hung"
+        }
+    }
+}
+
 pub fn round_trip<T>(p: &P, cfg: &C19Cfg, build: fn(&P) -> T, fp: fn(&T, &P, &mut Fingerprint), eq: Option<fn(&T, &T) -> bool>) -> C19Outcome
 where
     T: Serialize + DeserializeOwned + Send + 'static,
@@ -69,24 +114,17 @@ where
         let mut r = Prng::new(storage_seed ^ 0x7042);
         if file.data.len() > 1 {
             let cut = r.below(file.data.len() as u64 - 1) as usize;
-            let torn = catch_unwind(AssertUnwindSafe(|| bincode::deserialize::<T>(&file.data[..cut]).is_ok()));
-            *probes.entry(match torn {
-                Ok(true) => "torn_file_accepted",
-                Ok(false) => "torn_file_rejected",
-                Err(_) => "torn_file_panicked",
-            }.to_string()).or_default() += 1;
+            let data = &file.data;
+            let torn = in_child(|| bincode::deserialize::<T>(&data[..cut]).is_ok());
+            *probes.entry(format!("torn_file_{torn}")).or_default() += 1;
             let mut flipped = file.data.clone();
             let at = r.below(flipped.len() as u64) as usize;
             flipped[at] ^= 1 << r.below(8);
             // bound allocation on corrupted length prefixes
             use bincode::Options;
             let opts = bincode::DefaultOptions::new().with_fixint_encoding().allow_trailing_bytes().with_limit(16 << 20);
-            let fl = catch_unwind(AssertUnwindSafe(|| opts.deserialize::<T>(&flipped).is_ok()));
-            *probes.entry(match fl {
-                Ok(true) => "bit_flip_accepted",
-                Ok(false) => "bit_flip_rejected",
-                Err(_) => "bit_flip_panicked",
-            }.to_string()).or_default() += 1;
+            let fl = in_child(|| opts.deserialize::<T>(&flipped).is_ok());
+            *probes.entry(format!("bit_flip_{fl}")).or_default() += 1;
         }
         match restored {
             Err(e) => (fb_orig, Err(e), None, None, stats, probes),
